@@ -9,6 +9,7 @@ transformed block footprints (shapely).
 -/
 import FemtoVerif.Proofs.TreeLemmas
 import FemtoVerif.Model.TrenchProg
+import FemtoVerif.Proofs.Session
 import FemtoVerif.Gen.Data
 import Mathlib.Tactic.Linarith
 import Mathlib.Tactic.Set
@@ -738,6 +739,136 @@ theorem matchWallLoop_body (p : String) (q : Rat) : matchWallLoop (wallLoopBody 
 
 theorem matchWallLoop_bodyD (t : Rat) (p : String) (q : Rat) : matchWallLoop (wallLoopBodyD t p q) = some (some t, p, q) := by
   simp [matchWallLoop, wallLoopBodyD, wallLoopBody, flattenStmts, flattenStmt]
+
+/-! ### balance and dwell accounting of the call file (C03 / C12 for the trench programs) -/
+
+/-- `session_ok` for a session around any body that keeps the compiler's bookkeeping (`ResOK`) -/
+theorem sessionWith_ok (cfg : Cfg) (body : CS → Res) (hbody : ∀ cs, ResOK cs (body cs)) (hh : headerClean cfg.header = true) :
+    cleanList (sessionWith cfg body).1 = true ∧ dwellOfList (sessionWith cfg body).1 = (sessionWith cfg body).2.dwellTotal := by
+  have hhd : ∀ i ∈ cfg.header ++ [Instr.blank], i.isDelim = false ∧ instrDwell i = 0 := by
+    intro i hi
+    rcases List.mem_append.mp hi with h | h
+    · have := (List.all_eq_true.mp hh) i h
+      simp only [Bool.and_eq_true, Bool.not_eq_true', decide_eq_true_eq] at this
+      exact ⟨this.1.1, this.1.2⟩
+    · simp at h; subst h; simp [Instr.isDelim, instrDwell]
+  have h0 : OutOK ({} : CS) (seq (seq (emit (cfg.header ++ [.blank]), ({} : CS)) (dwell (some 1))) fun cs => (emit [.blank], cs)) :=
+    seq_ok (seq_ok (pure_ok _ _ (fun i hi => (hhd i hi).1) (fun i hi => (hhd i hi).2)) (dwell_ok _))
+      (fun c => pure_ok c [.blank] (by simp [Instr.isDelim]) (by simp [instrDwell]))
+  simp only [sessionWith]
+  generalize hH : (seq (seq (emit (cfg.header ++ [.blank]), ({} : CS)) (dwell (some 1))) fun cs => (emit [.blank], cs)) = H at h0
+  have h1 : OutOK ({} : CS) (if cfg.aeroAngle = 0 then H else seq H (enterRot cfg (some cfg.aeroAngle))) := by
+    split
+    · exact h0
+    · exact seq_ok h0 (enterRot_ok cfg _)
+  generalize (if cfg.aeroAngle = 0 then H else seq H (enterRot cfg (some cfg.aeroAngle))) = H1 at h1
+  obtain ⟨r1, r2, r3, r4⟩ := hbody H1.2
+  generalize body H1.2 = r at r1 r2 r3 r4
+  have hx : OutOK r.cs (if cfg.aeroAngle = 0 then (([] : List Stmt), r.cs)
+      else seq (exitRot cfg r.cs) fun cs => (emit [.blank], cs)) := by
+    split
+    · exact OutOK.nil _
+    · exact seq_ok (exitRot_ok cfg _) (fun c => pure_ok c [.blank] (by simp [Instr.isDelim]) (by simp [instrDwell]))
+  generalize (if cfg.aeroAngle = 0 then (([] : List Stmt), r.cs)
+      else seq (exitRot cfg r.cs) fun cs => (emit [.blank], cs)) = X at hx
+  have hg : OutOK X.2 (if cfg.home = true then
+      ((moveTo cfg (some (-2)) (some 0) (some 0) none X.2).1.1, (moveTo cfg (some (-2)) (some 0) (some 0) none X.2).1.2)
+      else ([], X.2)) := by
+    split
+    · exact moveTo_ok cfg _ _ _ _ X.2
+    · exact OutOK.nil _
+  generalize (if cfg.home = true then
+      ((moveTo cfg (some (-2)) (some 0) (some 0) none X.2).1.1, (moveTo cfg (some (-2)) (some 0) (some 0) none X.2).1.2)
+      else ([], X.2)) = Gm at hg
+  obtain ⟨a1, a2⟩ := h1
+  obtain ⟨x1, x2⟩ := hx
+  obtain ⟨g1, g2⟩ := hg
+  refine ⟨?_, ?_⟩
+  · simp [cleanList_append, a1, r1, r2, x1, g1]
+  · simp only [dwellOfList_append, a2, r3, r4, x2, g2]
+    ring
+
+theorem instrR_ok (is : List Instr) (h1 : ∀ i ∈ is, i.isDelim = false) (h2 : ∀ i ∈ is, instrDwell i = 0) (cs : CS) :
+    ResOK cs (instrR is cs) := ResOK.ofOut (pure_ok cs is h1 h2)
+
+theorem uMove_ok (cfg : Cfg) (u : Option Rat) (pause : Bool) (cs : CS) : ResOK cs (uMove cfg u pause cs) := by
+  unfold uMove
+  cases u with
+  | none => exact ResOK.stop cs none
+  | some v =>
+    have hg : ∀ c, ResOK c (instrR [g1U v] c) := fun c =>
+      instrR_ok _ (by intro i hi; simp at hi; subst hi; rfl) (by intro i hi; simp at hi; subst hi; rfl) c
+    cases pause
+    · exact hg cs
+    · exact andThen_ok (hg cs) (fun c => ResOK.ofOut (dwell_ok cfg.longPause c))
+
+
+theorem wallLoop_ok (cfg : Cfg) (c : Col) (i : Nat) (cs : CS) : ResOK cs (wallLoop cfg c i cs) := by
+  unfold wallLoop
+  generalize fmt 6 (c.deltaz / cfg.neff) = q
+  by_cases hn : c.nRep ≤ 0
+  · simp only [hn, if_true]; exact ResOK.stop cs _
+  · simp only [hn, if_false]
+    have hb : ResOK cs ((farcallOp cfg (c.wall i) cs).andThen (instrR [.incVar "zcurr" q, .g1 { zvar := some "ZCURR" }])) :=
+      andThen_ok (farcallOp_ok cfg _ cs) (fun c' => instrR_ok _ (by intro j hj; simp at hj; rcases hj with rfl | rfl <;> rfl)
+        (by intro j hj; simp at hj; rcases hj with rfl | rfl <;> rfl) c')
+    generalize ((farcallOp cfg (c.wall i) cs).andThen (instrR [.incVar "zcurr" q, .g1 { zvar := some "ZCURR" }])) = r at hb ⊢
+    obtain ⟨h1, h2, h3, h4⟩ := hb
+    refine ⟨?_, h2, ?_, h4⟩
+    · simp [cleanList, Stmt.clean, h1, Instr.isDelim]
+    · simp only [dwellOfList, dwellOf]
+      have := loop_dwell c.nRep (by omega) cs.dwellTotal r.cs.dwellTotal _ h3
+      simpa using this
+
+theorem trenchBlock_ok (cfg : Cfg) (c : Col) (nbox i : Nat) (xy : Rat × Rat) (cs : CS) : ResOK cs (trenchBlock cfg c nbox i xy cs) := by
+  unfold trenchBlock
+  have msg : ∀ c', ResOK c' (instrR [.msg] c') := fun c' =>
+    instrR_ok _ (by intro j hj; simp at hj; subst hj; rfl) (by intro j hj; simp at hj; subst hj; rfl) c'
+  have sh : ∀ on c', ResOK c' (shutterR cfg on c') := fun on c' => ResOK.ofOut (shutter_ok cfg on c')
+  refine andThen_ok (andThen_ok (andThen_ok (andThen_ok (andThen_ok (andThen_ok (andThen_ok (andThen_ok (andThen_ok (andThen_ok
+    (andThen_ok (andThen_ok (andThen_ok (andThen_ok (andThen_ok (andThen_ok (ResOK.ofOut (comment_ok true cs))
+    (loadOp_ok _ 2)) msg) (sh false)) (uMove_ok cfg _ true)) (fun c' => moveRes_ok cfg _ _ _ _ c'))
+    (fun c' => instrR_ok _ (by intro j hj; simp at hj; subst hj; rfl) (by intro j hj; simp at hj; subst hj; rfl) c')) (sh true))
+    (wallLoop_ok cfg c i)) (removeOp_ok _ 2)) (sh false)) (loadOp_ok _ 2)) msg) (uMove_ok cfg _ true)) (sh true)) (farcallOp_ok cfg _))
+    (fun c' => andThen_ok (andThen_ok (sh false c') (uMove_ok cfg _ false)) (removeOp_ok _ 2))
+
+theorem bedBlock_ok (cfg : Cfg) (c : Col) (k : Nat) (xy : Rat × Rat) (cs : CS) : ResOK cs (bedBlock cfg c k xy cs) := by
+  unfold bedBlock
+  have msg : ∀ c', ResOK c' (instrR [.msg] c') := fun c' =>
+    instrR_ok _ (by intro j hj; simp at hj; subst hj; rfl) (by intro j hj; simp at hj; subst hj; rfl) c'
+  have sh : ∀ on c', ResOK c' (shutterR cfg on c') := fun on c' => ResOK.ofOut (shutter_ok cfg on c')
+  exact andThen_ok (andThen_ok (andThen_ok (andThen_ok (andThen_ok (andThen_ok (andThen_ok (andThen_ok (andThen_ok (andThen_ok
+    (ResOK.ofOut (comment_ok true cs)) (sh false)) (loadOp_ok _ 2)) msg) (uMove_ok cfg _ true)) (fun c' => moveRes_ok cfg _ _ _ _ c'))
+    (sh true)) (farcallOp_ok cfg _)) (sh false)) (uMove_ok cfg _ false)) (removeOp_ok _ 2)
+
+theorem blocksFrom_ok (cfg : Cfg) (c : Col) (l : List (Nat × Nat × (Rat × Rat))) : ∀ cs, ResOK cs (blocksFrom cfg c l cs) := by
+  induction l with
+  | nil => intro cs; exact ResOK.stop cs none
+  | cons b l ih => obtain ⟨nbox, i, xy⟩ := b; intro cs; exact andThen_ok (trenchBlock_ok cfg c nbox i xy cs) ih
+
+theorem bedsFrom_ok (cfg : Cfg) (c : Col) (l : List (Nat × (Rat × Rat))) : ∀ cs, ResOK cs (bedsFrom cfg c l cs) := by
+  induction l with
+  | nil => intro cs; exact ResOK.stop cs none
+  | cons b l ih => obtain ⟨k, xy⟩ := b; intro cs; exact andThen_ok (bedBlock_ok cfg c k xy cs) ih
+
+theorem farcallBody_ok (cfg : Cfg) (c : Col) (cs : CS) : ResOK cs (farcallBody cfg c cs) := by
+  unfold farcallBody
+  have hd : ResOK cs ({ pre := emit [.dvar ["zcurr"], .blank], cs := { cs with dvars := cs.dvars ++ ["zcurr"] } } : Res) := by
+    refine ⟨by simp [cleanList], ?_, by simp [dwellOfList], ?_⟩
+    · exact cleanList_emit _ (by intro i hi; simp at hi; rcases hi with rfl | rfl <;> rfl)
+    · simp [dwellOfList_emit, instrDwell]
+  exact andThen_ok (andThen_ok (andThen_ok hd (blocksFrom_ok cfg c _)) (bedsFrom_ok cfg c _))
+    (fun c' => instrR_ok _ (by intro j hj; simp at hj; subst hj; rfl) (by intro j hj; simp at hj; subst hj; rfl) c')
+
+/-- **C03 / C12 for the trench call files.** For every column and configuration with a clean header the call file the model compiles
+has balanced, properly nested loops (it is read back by the controller's parser as exactly the statement tree that was emitted) and
+the dwell time the compiler reports for it is the dwell time the controller executes — `REPEAT` bodies counted once per turn —
+also when the compilation stops with an error half way. -/
+theorem farcallFile_ok (cfg : Cfg) (c : Col) (hh : headerClean cfg.header = true) :
+    structure? (flattenStmts (farcallFile cfg c).1) = some (farcallFile cfg c).1 ∧
+      dwellOfList (farcallFile cfg c).1 = (farcallFile cfg c).2.dwellTotal := by
+  obtain ⟨h1, h2⟩ := sessionWith_ok cfg (farcallBody cfg c) (farcallBody_ok cfg c) hh
+  exact ⟨structure?_flattenStmts _ h1, h2⟩
 
 /-! ### the leaf files (`export_array2d`) -/
 
